@@ -77,12 +77,16 @@ size_t verif_fwrite(const void * ptr, size_t size, size_t nmemb, FILE * wp) {
                    "writer: size * count of one write stays inside the file bound");
   long len = (long)(size * nmemb);
   __CPROVER_assert(len <= FILE_MAX - g_off, "writer: file stays inside the file bound (harness precondition)");
-  if (nmemb > 0 && nondet_bool()) {             /* short write */
+  if (len > 0 && nondet_bool()) {               /* short write */
     g_io_failed = 1;
     size_t k = nondet_ulong(); __CPROVER_assume(k < nmemb);
     return k;
   }
   g_w_off[g_nwrites] = g_off; g_w_len[g_nwrites] = len; g_w_src[g_nwrites] = ptr;
+  g_nwrites++;
+  /* C11 7.21.8.2: "If size or nmemb is zero, fwrite returns zero and the state of the stream remains unchanged" -- a
+     successful write of an EMPTY array (a DAG of the root only has m == 0) returns 0, not nmemb */
+  if (len == 0) return 0;
   /* byte preservation, for the bytes the reader inspects (see the header comment) */
   if (g_off + len <= HEADER_SZ) {
     if (len == 8) memcpy(HDR + g_off, ptr, 8);
@@ -90,7 +94,6 @@ size_t verif_fwrite(const void * ptr, size_t size, size_t nmemb, FILE * wp) {
   } else if (g_off >= HEADER_SZ && len >= (long)sizeof(dr_pi_string_table)) {
     memcpy(&WIN, ptr, sizeof(dr_pi_string_table)); g_win_off = g_off;
   }
-  g_nwrites++;
   g_off += len;
   return nmemb;
 }
@@ -175,10 +178,11 @@ void h_file_layout(void) {
 
   /* ---- write ---- */
   int ok = dr_pi_dag_dump(&G0, WP, g_name);
-  __CPROVER_assert((ok == 1) == !g_io_failed && (ok == 0 || ok == 1), "writer: reports success iff every write succeeded");
+  __CPROVER_assert((ok == 1) == !g_io_failed && (ok == 0 || ok == 1),
+                   "writer: for every n >= 0, m >= 0 (a DAG of the root only has m == 0) it reports success iff no write failed -- an empty array is not a failure");
   __CPROVER_assume(ok == 1);
   long off_T = HEADER_SZ, off_E = off_T + n * (long)sizeof(dr_pi_dag_node), off_S = off_E + m * (long)sizeof(dr_pi_dag_edge);
-  __CPROVER_assert(g_nwrites == 8, "writer: exactly 8 writes");
+  __CPROVER_assert(g_nwrites == 8, "writer: all eight items are in the file (exactly 8 writes, none skipped for an empty array)");
   __CPROVER_assert(g_w_off[0] == 0 && g_w_len[0] == DAG_RECORDER_HEADER_LEN, "writer: the file starts with the 45-byte version line");
   __CPROVER_assert(g_w_src[1] == &G0.n && g_w_len[1] == 8 && g_w_src[2] == &G0.m && g_w_len[2] == 8 &&
                    g_w_src[3] == &G0.start_clock && g_w_len[3] == 8 && g_w_src[4] == &G0.num_workers && g_w_len[4] == 8,
